@@ -25,6 +25,7 @@ fn action_for(k: u64, plain: bool) -> Option<Action> {
         (false, 6) => Action::FilePrintFormatted("b".into(), f_raw.clone()),
         (false, 7) => Action::PrintFormatted(f_raw),
         (false, 8) => Action::FilePrint("b".into()),
+        (_, 9) => Action::Quit,
         _ => return None,
     })
 }
@@ -34,12 +35,12 @@ fn build_expr(r: &mut Rng, printers: usize, plain: bool) -> Expression {
     let mut have_framing = false;
     for j in 0..printers {
         let a = loop {
-            let k = r.below(9);
+            let k = r.below(10);
             if let Some(a) = action_for(k, plain) {
-                if !plain && j + 1 == printers && !have_framing && k < 3 {
+                if !plain && j + 1 == printers && !have_framing && (k < 3 || k == 9) {
                     continue; // make sure a framed configuration really is framed
                 }
-                if k >= 3 {
+                if (3..9).contains(&k) {
                     have_framing = true;
                 }
                 break a;
